@@ -276,7 +276,7 @@ fn encode<'t, T>(
                     }
                 },
                 (Only, Wildcard(Tree { has_root })) => {
-                    if *has_root && superposition.is_none() {
+                    if *has_root && matches!(superposition, None | Some(First | Only)) {
                         grouping.push_str(pattern, sepexpr!("{0}.*"));
                     }
                     else {
